@@ -5,6 +5,8 @@ ones that are no longer caught. Results: .build/recheck-<lane>.jsonl"""
 import sys, os, json, glob, subprocess, tempfile, shutil
 lane, lanes = int(sys.argv[1]), int(sys.argv[2])
 seeds = sorted(glob.glob('/verif/seeded/*/meta.json'))
+if os.environ.get('ONLY'):
+    seeds = [m for m in seeds if ((json.load(open(m)).get('caught_by_checks') or [json.load(open(m))['property']])[0]) in os.environ['ONLY'].split(',')]
 out = open(f'/verif/.build/recheck-{lane}.jsonl', 'w')
 for i, mf in enumerate(seeds):
     if i % lanes != lane:
@@ -12,6 +14,9 @@ for i, mf in enumerate(seeds):
     meta = json.load(open(mf))
     d = os.path.dirname(mf)
     checks = meta.get('caught_by_checks') or [meta['property']]
+    only = os.environ.get('ONLY')
+    if only and checks[0] not in only.split(','):
+        continue
     tmp = tempfile.mkdtemp(prefix='vre.', dir='/tmp')
     try:
         subprocess.run(['rsync', '-a', '--exclude', '.git', '/repo/', tmp + '/'], check=True)
